@@ -160,6 +160,17 @@ func init() {
 			jobs = append(jobs, concJob("L3:evicting/"+ex, l3, []string{"set 1", "set 2"}, [][]string{{"set 3", "get 1"}, {"get 2", "set 1"}}, or, "native", pb, false, 16, budget, "histories-checked"))
 			jobs = append(jobs, concJob("L3:evicting-cap1/"+ex, CacheCfg{MaxSize: 1, Executor: ex}, []string{"set 1"}, [][]string{{"set 2", "get 2"}, {"get 1", "cia 1"}}, or, "native", pb, false, 16, budget, "histories-checked"))
 		}
+		// L3 matrix: all pairs of operations on a full, evicting cache (every writer reads a key back)
+		evops := []string{"set 1", "set 3", "inv 1", "cw 1", "ci 2", "cia 3", "sia 3", "cipw 2", "load 3 val"}
+		for i, a := range evops {
+			for _, b := range evops[i:] {
+				ka, kb := strings.Fields(a)[1], strings.Fields(b)[1]
+				jobs = append(jobs, concJob("L3:pair:"+a+"‖"+b, CacheCfg{MaxSize: 2}, []string{"set 1", "set 2"}, [][]string{{a, "get " + kb}, {b, "get " + ka}}, or, "native", pb, false, 4, budget, "histories-checked"))
+				if thorough {
+					jobs = append(jobs, concJob("L3:pair:"+a+"‖"+b+"/default", CacheCfg{MaxSize: 2, Executor: "default"}, []string{"set 1", "set 2"}, [][]string{{a, "get " + kb}, {b, "get " + ka}}, or, "native", pb-1, false, 8, budget, "histories-checked"))
+				}
+			}
+		}
 		// L6: InvalidateAll (one removal per key, each inside the call) against writers and readers of two keys
 		for _, ex := range []string{"caller", "default"} {
 			ws := []string{"set 1", "cia 3", "inv 1"}
